@@ -408,7 +408,7 @@ fn ctor_failures(l: &mut Local, rng: &mut Rng) {
 fn capi_leg(run: &mut Run) {
     let names = all_names();
     let miri = cfg!(miri);
-    let n = if miri { 2 } else { run.tier.n(60, 1500) };
+    let n = if miri { 2 } else { run.tier.n(1500, 40_000) };
     let names2 = names.clone();
     let thorough = run.tier == crate::ctx::Tier::Thorough;
     run.sub_seq("decoder-differential", n, move |l, idx, rng| {
@@ -423,7 +423,7 @@ fn capi_leg(run: &mut Run) {
         };
         decoder_case(l, &m, &subset, rng, idx % 5 == 4);
     });
-    let ne = if miri { 2 } else { run.tier.n(200, 5000) };
+    let ne = if miri { 2 } else { run.tier.n(20_000, 500_000) };
     run.sub_seq("encoder-differential", ne, |l, idx, rng| encoder_case(l, rng, idx % 5 == 4));
     run.sub_seq("constructor-failures", 1, |l, _i, rng| ctor_failures(l, rng));
 }
